@@ -26,6 +26,7 @@ import PyTough.Proofs.GeoColumnDel
 import PyTough.Proofs.GeoRun
 import PyTough.Proofs.GeoLayers
 import PyTough.Proofs.GeoRename
+import PyTough.Proofs.GeoRefineLayers
 namespace Props.C10
 open Model.Geo Model.Geo.Geo Py Proofs.Geo
 
@@ -218,6 +219,25 @@ theorem rename_layer_preserves (g g' : Geo) (old new : Name) (hd : g.renameLayer
 theorem copy_layers_from_establishes_invariant (g g' : Geo) (layers : List Layer)
     (hc : g.copyLayersFrom layers = .ok g') (h : g.geoInv0 = true) : g'.geoInv = true :=
   copyLayersFrom_geoInv g g' layers hc h
+
+/-- `refine_layers(layers, factor)` likewise needs only the structural invariant and re-establishes layer counts and
+    name lists — PARTIAL: under `NoAtmNameClash`, i.e. provided the atmosphere layer's old name, which is put back
+    after all layers have been renamed in sequence, is not one of the freshly generated names.  Without that
+    hypothesis the statement is false, in the model (witness below) and in the code (known finding
+    `registry:dup-name@refine_layers:atm-name-clash`, e.g. the shipped g4.dat whose atmosphere layer is ' 1'). -/
+theorem refine_layers_establishes_invariant_partial (g g' : Geo) (layers : List Name) (f : Nat)
+    (hr : g.refineLayers layers f = .ok g')
+    (hno : ∀ g1 atm, g.refineLayersStack layers f = .ok (g1, atm) → NoAtmNameClash g1 atm)
+    (h : g.geoInv0 = true) : g'.geoInv = true := refineLayers_geoInv g g' layers f hr hno h
+
+-- the hypothesis is met on the strip (atmosphere layer ' 0') …
+example : (strip2 >>= fun g => g.refineLayers [] 2).map (fun g => (g.geoInv, g.layerlist.length)) = .ok (true, 3) := by
+  decide +kernel
+-- … and its negation is a real failure: rename the atmosphere layer to ' 1' first
+example : (strip2 >>= fun g => g.renameLayer [[' ', '0']] [[' ', '9']] >>= fun g =>
+    g.renameLayer [[' ', '1']] [[' ', '0']] >>= fun g => g.renameLayer [[' ', '9']] [[' ', '1']] >>= fun g =>
+    g.refineLayers [] 2).map (fun g => (g.registriesOK, g.layerlist.map fun l => (g.lay l).name)) =
+    .ok (false, [[' ', '1'], [' ', '1'], [' ', '2']]) := by decide +kernel
 
 example : (strip2 >>= fun g => g.renameColumn [nm 'a'] [nm 'q'] >>= fun g =>
     g.renameLayer [[' ', '1']] [[' ', '7']] >>= fun g =>
